@@ -58,9 +58,9 @@ impl Progress {
     }
 }
 
-fn process_cpu_secs() -> f64 {
+fn cpu_secs(clock: libc::clockid_t) -> f64 {
     let mut ts = libc::timespec { tv_sec: 0, tv_nsec: 0 };
-    unsafe { libc::clock_gettime(libc::CLOCK_PROCESS_CPUTIME_ID, &mut ts) };
+    unsafe { libc::clock_gettime(clock, &mut ts) };
     ts.tv_sec as f64 + ts.tv_nsec as f64 * 1e-9
 }
 
@@ -74,7 +74,7 @@ pub fn run_watched<T: Send + 'static>(job: impl FnOnce() -> T + Send + 'static) 
     let (mut seen, mut since) = (u64::MAX, 0.0);
     while !handle.is_finished() {
         std::thread::sleep(std::time::Duration::from_millis(100));
-        let (seq, cpu) = (CASE_SEQ.load(Ordering::SeqCst), process_cpu_secs());
+        let (seq, cpu) = (CASE_SEQ.load(Ordering::SeqCst), cpu_secs(libc::CLOCK_PROCESS_CPUTIME_ID));
         if seq != seen {
             (seen, since) = (seq, cpu);
         } else if cpu - since > HANG_CPU_SECS {
@@ -161,6 +161,7 @@ fn work(args: WorkerArgs, progress: Progress) {
             continue;
         }
         let block: &Block = &plan.blocks[unit.block];
+        let cpu_start = cpu_secs(libc::CLOCK_THREAD_CPUTIME_ID);
         let (mut members, mut valid, mut nontrivial, mut exec, mut cli_runs) = (0u64, 0u64, 0u64, 0u64, 0u64);
         let mut keys: BTreeMap<String, KeyAgg> = BTreeMap::new();
         let mut new_outcomes = vec![];
@@ -215,7 +216,8 @@ fn work(args: WorkerArgs, progress: Progress) {
             .collect();
         let line = json!({"unit": uid, "family": block.family(), "members": members, "valid": valid,
             "nontrivial": nontrivial, "executions": exec, "cli_runs": cli_runs, "outcomes": new_outcomes,
-            "findings": findings, "sample": sample, "layout_syntax": layout_syntax});
+            "findings": findings, "sample": sample, "layout_syntax": layout_syntax,
+            "cpu_s": cpu_secs(libc::CLOCK_THREAD_CPUTIME_ID) - cpu_start});
         let mut out = stdout.lock();
         let _ = writeln!(out, "{line}");
         let _ = out.flush();
